@@ -51,7 +51,7 @@ def _finding_listed(fid):
 def gen_script(rng, kind=None, raise_p=0.02):
     kind = kind or rng.choice(["test", "vts", "hist", "hist"])
     unit = 500 if kind == "hist" else 1
-    g = vc.Gen(rng, unit=unit, raise_p=raise_p, ctl_p=rng.choice([0.0, 0.0, 0.15, 0.3]))
+    g = vc.Gen(rng, unit=unit, raise_p=raise_p, ctl_p=rng.choice([0.0, 0.0, 0.15, 0.3]), ret_p=rng.choice([0.0, 0.3, 0.6]))
     c0 = unit * rng.choice([0, 0, 0, 5, 100])
     clock = c0  # rough tracking, only to aim targets
     ops = []
@@ -409,7 +409,9 @@ def shrink(case):
             c["ops"] = case["ops"][:i] + case["ops"][i + 1:]
             yield c
         return
-    yield from vc.shrink_script(case)
+    for c in vc.shrink_script(case):
+        if all(vc.ret_ok(op[4]) for op in c["ops"] if op[0] == "sched"):
+            yield c
 
 
 LEVEL_TEXT = ("Lean theorems over the executable model of PriorityQueue + VirtualTimeScheduler (both clock flavours; actions are arbitrary "
